@@ -11,6 +11,7 @@ import (
 	"go/ast"
 	"go/token"
 	"go/types"
+	"os"
 	"sort"
 	"strings"
 
@@ -148,7 +149,7 @@ func c12HoleRange(e *Emission, arg ast.Expr) (lo, hi int64, ok bool) {
 
 func c12HoleRange1(e *Emission, arg ast.Expr) (lo, hi int64, ok bool) {
 	info := e.Fn.Pkg.TypesInfo
-	facts := c12Facts(e.G, e.Loc)
+	facts := c12FactsOf(e.G, e.Loc, c12OwnGuards(e))
 	t, k := linForm(info, arg)
 	if t.ID == "" {
 		return k, k, true
@@ -211,12 +212,18 @@ func (st *c12State) guardCtxs(e *Emission) (res []c12GuardCtx) {
 		return c
 	}
 	defer func() { st.ctxCache[e] = res }()
-	out := []c12GuardCtx{{e.Fn, e.G, e.G.Guards(e.Loc)}}
+	out := []c12GuardCtx{{e.Fn, e.G, c12OwnGuards(e)}}
 	if e.FnName != e.Fn.Name {
 		return out // function literal: its guards are its own
 	}
 	cur := e.Fn
-	for level := 0; level < 2; level++ {
+	levels := 2
+	if site := c12SiteOf[e]; site != nil {
+		// an instance of a helper's write at one of its call sites: that call is its context
+		out = append(out, c12GuardCtx{site.caller, site.g, site.g.Guards(site.loc)})
+		cur, levels = site.caller, 1
+	}
+	for level := 0; level < levels; level++ {
 		var sites []c12GuardCtx
 		for _, fi := range st.c.P.FuncsIn(shortPkg(cur.Pkg.PkgPath)) {
 			if fi == cur || fi.Decl.Body == nil {
@@ -596,7 +603,6 @@ func (st *c12State) vocabulary() {
 		"vaxis.(*writer).Write":       "payload pass-through of the buffered writer (the payload is checked at its origin)",
 		"vaxis.(*writer).WriteString": "payload pass-through of the buffered writer (the payload is checked at its origin)",
 		"vaxis.(*writer).Printf":      "payload pass-through of the buffered writer (the payload is checked at its origin)",
-		"vaxis.(*writer).Flush":       "flush of the buffer",
 	}
 	st.sgrEffects = map[string][]c12Effect{}
 	if st.seen == nil {
@@ -610,6 +616,8 @@ func (st *c12State) vocabulary() {
 			key := fmt.Sprintf("%s/pass-through %s", e.FnName, types.ExprString(e.ArgExpr))
 			if why, ok := passThrough[e.FnName]; ok {
 				c.okTrivial("C12.a", key, e.Call.Pos(), "%s", why)
+			} else if st.isBufferFlush(e) {
+				c.okTrivial("C12.a", key, e.Call.Pos(), "flush of the buffer (every write into writer.buf is itself checked as a terminal write)")
 			} else if st.isCellText(e.Fn, e.ArgExpr, 0) {
 				c.okTrivial("C12.a", key, e.Call.Pos(), "cell grapheme: printable text, handled by the emulator's print (C12.e coordinate chain)")
 			} else {
@@ -846,6 +854,9 @@ func (st *c12State) checkSGREffect(e *Emission, s Seq, label string, sub map[int
 	c := st.c
 	info := e.Fn.Pkg.TypesInfo
 	key := fmt.Sprintf("%s/%q has the intended effect", e.FnName, label)
+	if os.Getenv("C12_DEBUG") != "" {
+		fmt.Printf("DEBUG intent %s %q kind=%s mask=%d guard=%s row=%v\n", e.FnName, label, intent.kind, intent.mask, intent.guard, st.rows[e] != nil)
+	}
 	if intent.kind == "" {
 		c.undecided("C12.e", key, e.Call.Pos(), "cannot derive from the dominating guards which style change the renderer intends by this SGR (guards %v)", e.GuardKeys)
 		return
@@ -1269,9 +1280,11 @@ type c12CupSite struct {
 // c12Facts: like FactsAt, but a guard is only invalidated by assignments that can happen after its *last*
 // evaluation (paths that pass through the guard again re-establish it). FactsAt is more conservative for
 // guards inside loops, which loses the lower bounds of tagless-switch cascades in render.
-func c12Facts(g *FG, l Loc) []Atom {
+func c12Facts(g *FG, l Loc) []Atom { return c12FactsOf(g, l, g.Guards(l)) }
+
+func c12FactsOf(g *FG, l Loc, guards []Guard) []Atom {
 	var out []Atom
-	for _, gd := range g.Guards(l) {
+	for _, gd := range guards {
 		atoms := condAtoms(g.Info, gd.Cond, gd.Pol)
 		if len(atoms) == 0 {
 			continue
@@ -1349,6 +1362,57 @@ func c12AssignedSince(g *FG, gd Guard, l Loc, objs map[types.Object]bool) bool {
 		}
 	}
 	return false
+}
+
+// isBufferFlush: the bytes written are the contents of the buffered writer's own buffer (writer.buf.Bytes() or
+// .String(), possibly through a single-definition local), in whichever function of the flush path the write
+// stands. Every byte in that buffer got there through a write into writer.buf, and each of those is a sink of the
+// extractor that is checked where it stands.
+func (st *c12State) isBufferFlush(e *Emission) bool {
+	info := e.Fn.Pkg.TypesInfo
+	x := c12StripConv(info, e.ArgExpr)
+	for depth := 0; depth < 2; depth++ {
+		id, ok := x.(*ast.Ident)
+		if !ok {
+			break
+		}
+		obj := info.ObjectOf(id)
+		if obj == nil || c12AssignedElsewhere(e.Fn, obj) {
+			return false
+		}
+		def := c12LocalInit(e.Fn, obj)
+		if def == nil {
+			return false
+		}
+		x = c12StripConv(info, def)
+	}
+	call, ok := x.(*ast.CallExpr)
+	if !ok || len(call.Args) != 0 {
+		return false
+	}
+	fn := calleeOf(info, call)
+	if fn == nil {
+		return false
+	}
+	switch fullName(fn) {
+	case "bytes.Buffer.Bytes", "bytes.Buffer.String", "strings.Builder.String":
+	default:
+		return false
+	}
+	sel, ok := unparen(call.Fun).(*ast.SelectorExpr)
+	if !ok {
+		return false
+	}
+	recv := unparen(sel.X)
+	if id, isId := recv.(*ast.Ident); isId {
+		// buf := w.buf
+		if obj := info.ObjectOf(id); obj != nil && !c12AssignedElsewhere(e.Fn, obj) {
+			if def := c12LocalInit(e.Fn, obj); def != nil {
+				recv = unparen(def)
+			}
+		}
+	}
+	return fieldOwner(info, recv) == "writer.buf"
 }
 
 // isCellText: the expression is the Grapheme of a cell (vaxis.Character.Grapheme), possibly through a
